@@ -1,3 +1,4 @@
+import copyreg
 import pickle
 from typing import Iterator, List
 
@@ -248,6 +249,13 @@ class FicklingMLUnpickler(pickle.Unpickler):
                     self.allowlist[module][name] = "Import explicitly allowed by user"
                 else:
                     self.allowlist[module] = {name: "Import explicitly allowed by user"}
+
+    def load(self):
+        # EXT1/EXT2/EXT4 codes are looked up in pickle's process-wide cache of already resolved
+        # extensions before find_class() is ever asked: forget it, so that a global reached through
+        # the extension registry is checked against the allowlist like one reached by name
+        copyreg._extension_cache.clear()
+        return super().load()
 
     def find_class(self, module, name):
         # Check whether import is allowed
